@@ -6,6 +6,10 @@ unset GOWORK; export GOWORK=off
 here="$(cd "$(dirname "$0")" && pwd)"
 prop="$1"; tier="${2:-quick}"
 bin="$here/bin/gosqlx-sa"
+# developer runs (seed matrix) may pin a private copy of the analyser so that editing sa/ meanwhile does not disturb them
+if [ -n "$VERIF_BIN" ] && [ -x "$VERIF_BIN" ]; then
+  exec "$VERIF_BIN" -prop "$prop" -tier "$tier" -repo "${VERIF_REPO:-/repo}" -verif "$here" ${VERIF_OUT:+-out "$VERIF_OUT"}
+fi
 if [ ! -x "$bin" ] || [ -n "$(find "$here/sa" -name '*.go' -newer "$bin" -print -quit)" ]; then
   (cd "$here/sa" && go build -o "$bin" ./cmd/gosqlx-sa) || { echo "ANALYSIS-FAILURE: analyser does not build"; echo "VIOLATION property=$prop replay=$here/sa"; exit 1; }
 fi
